@@ -128,7 +128,13 @@ fn gen_serial(t: &mut Tape) -> u64 {
 }
 
 fn gen_data(t: &mut Tape) -> Bytes {
-    let n = match t.choose(10) {
+    let n = match t.choose(11) {
+        10 => {
+            // around power-of-two buffer sizes that encoders/decoders like to
+            // chunk by, and a few genuinely large objects
+            let base = *t.pick(&[1024usize, 3072, 4096, 8192, 12288, 16384, 32768, 65536, 65536, 98304, 131072, 200_000]);
+            (base + t.choose(5) as usize).saturating_sub(2)
+        }
         0 => 0,
         1 => 1,
         2 => 2,
@@ -595,12 +601,21 @@ impl C09 {
         // enumerate every offset of small documents, sample large ones
         let offsets: Vec<usize> = if len <= 1500 {
             (0..len).collect()
-        } else {
+        } else if len <= 20_000 {
             (0..300).map(|_| ctx.choose(len as u64) as usize).collect()
+        } else {
+            (0..40).map(|_| ctx.choose(len as u64) as usize).collect()
         };
         for k in offsets {
             let hard = ctx.chance(1, 3);
             let mut rcfg = { let mut t = ctx.tape.lock().unwrap(); gen_read_cfg(&mut t, false) };
+            if len > 20_000 {
+                // keep the cost of re-parsing large documents bounded
+                rcfg.chunk_max = rcfg.chunk_max.max(4096);
+                if rcfg.mode == 1 {
+                    rcfg.mode = 2;
+                }
+            }
             let data = if hard {
                 rcfg.fail_at = Some(k as u64);
                 bytes.clone()
@@ -1054,13 +1069,13 @@ impl Scenario for C09 {
     fn rule(&self) -> &'static str {
         "A random run generates one protocol-valid notification / snapshot / delta value (any UUID, \
          serials incl. 0 and u64::MAX, URIs over the full permitted alphabet incl. & ' ( ) * + , ; =, \
-         object lengths 0..4 KiB covering every base64 tail and the encoder's buffer size, 0..50 \
+         object lengths 0..4 KiB covering every base64 tail and the encoder's buffer size plus lengths around 1 KiB..128 KiB chunk boundaries and up to 200 kB, 0..50 \
          elements, delta serial lists sorted/unsorted/gapped/duplicated; 1 in 400 runs a notification \
          larger than the 1 MB per-element limit) and sends it through writer -> SimWrite -> wire -> \
          SimBufRead -> parser: class A (benign: short reads down to 1 byte, EINTR on read and write, \
          short writes where no base64 is involved) must round-trip through the owned parsers and the \
          streaming processors, then one of class B (EOF or hard read error at EVERY offset of documents \
-         up to 1500 bytes, 300 sampled offsets beyond), class C (one-shot or sticky write error at EVERY \
+         up to 1500 bytes, 300 sampled offsets up to 20 kB, 40 beyond), class C (one-shot or sticky write error at EVERY \
          write call index up to 400 calls) or class D (the document taken over at a structural position \
          by an endless hostile run with the bytes-pulled monitor armed). The sweep walks document kind x \
          position (6) x hostile kind (17) deterministically. evaluations = parses/writes executed; \
